@@ -5,7 +5,7 @@
    literally [forall script : list decision] (any length, any reply codes and texts, drops anywhere). *)
 From Coq Require Import String.
 From Verif Require Import Bytes Textproto SendErr RefServer SmtpSend SmtpSendGen.
-From VerifProofs Require Import SmtpSendProofs SmtpSendGenProofs SmtpSendCorollaries SmtpSendDialProofs SmtpSendProgramsProofs SmtpSendRefuted.
+From VerifProofs Require Import SmtpSendProofs SmtpSendGenProofs SmtpSendCorollaries SmtpSendDialProofs SmtpSendProgramsProofs SmtpSendInertProofs SmtpSendRefuted.
 
 (* T1: the source under test has the expectCode literals and the recovery actions the theorems assume *)
 Theorem C04_source_expect_codes : gen_expects = std_expects.
@@ -69,6 +69,23 @@ Theorem C04_ext_map_replaced : forall (F : fixes), dialogue_repaired F ->
   end.
 Proof. exact dial_ext. Qed.
 Print Assumptions C04_ext_map_replaced.
+
+(* Capabilities the code never consults are inert.  T1: the list of EHLO keywords the code looks up; theorem: for every
+   capability set (before and inside TLS), removing every keyword outside that list - PIPELINING, SIZE, CHUNKING,
+   unknown ones ... - changes nothing a run shows: returned error, per-message results, trace (commands, parameters,
+   verdicts, reply codes), attribution log, commit log.  By induction over the program: every function of the model
+   commutes with normalising the capability lists of the state. *)
+Theorem C04_source_consulted_extensions :
+  VerifGen.Gen.consulted_extensions = [bs "8BITMIME"; bs "AUTH"; bs "DSN"; bs "ENHANCEDSTATUSCODES"; bs "SMTPUTF8"; bs "STARTTLS"].
+Proof. exact gen_consulted_extensions. Qed.
+Print Assumptions C04_source_consulted_extensions.
+
+Theorem C04_inert_capabilities : forall X F, fx_ehlo_replace F = true ->
+  forall cfg render caps caps_tls script ms,
+  visible (run_case X F cfg (norm caps) (norm caps_tls) script ms render) =
+  visible (run_case X F cfg caps caps_tls script ms render).
+Proof. exact inert_capabilities. Qed.
+Print Assumptions C04_inert_capabilities.
 
 (* Entry points.  run_case is the dialogue of DialAndSendWithContext, DialAndSend, DialWithContext + Send + Close and,
    per connection, DialToSMTPClientWithContext + SendWithSMTPClient + CloseWithSMTPClient.  SendWithSMTPClient is a
